@@ -176,7 +176,8 @@ class Item:
                 % (self.file, self.name, rule, pat, n, count))
         self.text = res
         if n:
-            self.rewrites.append({"rule": rule, "regex": pat, "new": new, "count": n, "why": why})
+            self.rewrites.append({"rule": rule, "regex": pat, "new": new if isinstance(new, str) else "<computed from the match>",
+                                  "count": n, "why": why})
         return self
 
     def drop_logging(self):
